@@ -20,12 +20,14 @@ import itertools
 import json
 import os
 import pickle
+import sys
 import tempfile
 import traceback
 
 import numpy as np
 
 from .framework import Spec
+from .common import VERIF as VERIF_DIR
 
 FS = 1000.0
 POISON = -12345.5
@@ -376,6 +378,38 @@ def eval_queue(case, v):
     return out
 
 
+def _ref_eval(kind, case, v):
+    return pack(eval_gen(case, v)[1]) if kind == 'g' else pack(eval_queue(case, v))
+
+
+_ZYG = None     # (pid of the process that started it, Popen)
+
+
+def clean_ref(kind, case, v):
+    """Reference stream of lineage v, computed by harness.c10_zygote: a fresh interpreter in which no
+    generator or queue was ever built (so no module- or class-level state of the library can leak into it)."""
+    global _ZYG
+    import atexit
+    import struct
+    import subprocess
+    if _ZYG is None or _ZYG[0] != os.getpid() or _ZYG[1].poll() is not None:
+        env = dict(os.environ)
+        env['PYTHONPATH'] = VERIF_DIR + os.pathsep + env.get('PYTHONPATH', '')
+        z = subprocess.Popen([sys.executable, '-m', 'harness.c10_zygote'], stdin=subprocess.PIPE,
+                             stdout=subprocess.PIPE, cwd=VERIF_DIR, env=env)
+        _ZYG = (os.getpid(), z)
+        atexit.register(lambda z=z: (z.stdin.close(), z.wait(timeout=5)) if z.poll() is None else None)
+    z = _ZYG[1]
+    data = pickle.dumps((kind, case, v))
+    z.stdin.write(struct.pack('<I', len(data)) + data)
+    z.stdin.flush()
+    (n,) = struct.unpack('<I', z.stdout.read(4))
+    st, val = pickle.loads(z.stdout.read(n))
+    if st != 'ok':
+        raise RuntimeError('reference evaluation failed: ' + val)
+    return val
+
+
 def ref_key(case, kd):
     return pristine(lambda: freeze(invoke(kd, World(case))))
 
@@ -457,9 +491,9 @@ def run_history(case):
     for wv in want:
         if wv is not None and wv != 'bad' and wv not in refs:
             if wv[0] == 'g':
-                refs[wv] = pack(pristine(lambda: eval_gen(case, wv)[1]))
+                refs[wv] = clean_ref('g', case, wv)
             else:
-                refs[wv] = pack(pristine(lambda: eval_queue(case, wv)))
+                refs[wv] = clean_ref('q', case, wv)
     kref = {}
     for op in ops:
         if op[0] == 'call' and 0 <= op[1] < len(keys) and op[1] not in kref:
@@ -932,6 +966,54 @@ def gen_gen_case(rng, mixed=False):
     return c
 
 
+_PERTURB = {'level': lambda v, r: v * r.choice([10.0, 0.1, 2.0]), 'seed': lambda v, r: v + r.choice([1, 2]),
+            'pol': lambda v, r: -v, 'phase': lambda v, r: v + 0.25, 'depth': lambda v, r: 0.75 if v != 0.75 else 0.5}
+
+
+def perturb_spec(rng, spec):
+    """A copy of spec that differs in exactly one scalar parameter (level, seed, polarity, ...), or None."""
+    s = copy.deepcopy(spec)
+    sites, node = [], s
+    while isinstance(node, dict):
+        sites += [(node, k) for k in node if k in _PERTURB and isinstance(node[k], (int, float))]
+        node = node.get('in')
+    if not sites:
+        return None
+    node, k = rng.choice(sites)
+    node[k] = _PERTURB[k](node[k], rng)
+    return s
+
+
+def gen_sibling_case(rng):
+    """Two generators whose parameters differ in one scalar, built and drawn one after the other: the second
+    must not start from anything the first one left behind (shared warm-up, cached filter state, ...)."""
+    b = Builder(rng, 'gen')
+    c = b.case
+    c['arrays'] = random_arrays(rng, rng.choice([0, 1]))
+    for _ in range(20):
+        a = random_spec(rng, len(c['arrays']))
+        sib = perturb_spec(rng, a)
+        if sib is not None:
+            break
+    else:
+        a, sib = {'t': 'bbn', 'level': 1.0, 'seed': 0, 'pol': 1}, {'t': 'bbn', 'level': 10.0, 'seed': 0, 'pol': 1}
+    c['specs'] = [a, sib]
+    order = [0, 1] if rng.random() < 0.5 else [1, 0]
+    o1 = b.new(order[0])
+    for _ in range(rng.randint(0, 2)):
+        b.op('next', o1, rng.choice(CHUNKS))
+    if rng.random() < 0.5:
+        b.op('reset', o1)
+    o2 = b.new(order[1])
+    b.op('next', o2, rng.choice(CHUNKS))
+    b.op('next', o1, rng.choice(CHUNKS))
+    if rng.random() < 0.5:
+        b.op('reset', o2)
+        b.op('next', o2, rng.choice(CHUNKS))
+    b.sweep()
+    return c
+
+
 def gen_queue_case(rng):
     b = Builder(rng, 'queue')
     c = b.case
@@ -1112,8 +1194,7 @@ class C10(Spec):
 
     def cases(self, rng, tier):
         n = 3 if tier == 'quick' else 30
-        if tier == 'thorough':
-            self.PARALLEL = 16
+        self.PARALLEL = 16      # references are evaluated in forked children of a pristine interpreter: spread them
         for c in malformed_cases():
             yield c
         for c in exhaustive_cache(4 if tier == 'quick' else 6):
@@ -1126,6 +1207,8 @@ class C10(Spec):
             yield gen_gen_case(rng, mixed=True)
         for _ in range(150 * n):
             yield gen_queue_case(rng)
+        for _ in range(60 * n):
+            yield gen_sibling_case(rng)
 
     # The Lean model follows the fixed code (copy on return); C10_VARIANT=alias selects the model of the
     # code as originally written, to show that it reproduces the defect position by position.
